@@ -47,6 +47,9 @@ pub fn write_app(net: &Value, opts: &Value, tag: &str) -> AppFiles {
     std::fs::write(dir.join("vertices.csv"), vtxt).unwrap();
     std::fs::write(dir.join("speeds.txt"), stxt).unwrap();
     std::fs::write(dir.join("geoms.txt"), gtxt).unwrap();
+    // grade table (energy configurations): mirrored up- and downhill grades on edges that often share a speed
+    let grades: String = (0..es.len()).map(|i| format!("{}\n", [0.03, -0.03, 0.05, -0.05, 0.0][i % 5])).collect();
+    std::fs::write(dir.join("grades.txt"), grades).unwrap();
     let p = |f: &str| dir.join(f).to_str().unwrap().to_string();
     let s = |k: &str, d: &str| opts[k].as_str().unwrap_or(d).to_string();
     let mut toml = String::new();
@@ -64,7 +67,7 @@ pub fn write_app(net: &Value, opts: &Value, tag: &str) -> AppFiles {
     toml.push_str(&format!("[graph]\nedge_list_input_file = \"{}\"\nvertex_list_input_file = \"{}\"\nverbose = false\n", p("edges.csv"), p("vertices.csv")));
     toml.push_str(&opts["algorithm_toml"].as_str().unwrap_or("[algorithm]\ntype = \"a*\"\n").to_string());
     match opts["traversal_toml"].as_str() {
-        Some(t) => toml.push_str(&t.replace("$SPEEDS", &p("speeds.txt"))),
+        Some(t) => toml.push_str(&t.replace("$SPEEDS", &p("speeds.txt")).replace("$GRADES", &p("grades.txt"))),
         None => toml.push_str(&format!(
             "[traversal]\ntype = \"speed_table\"\nspeed_table_input_file = \"{}\"\nspeed_unit = \"meters_per_second\"\ndistance_unit = \"meters\"\ntime_unit = \"seconds\"\n",
             p("speeds.txt")
@@ -95,6 +98,7 @@ pub fn build_app(files: &AppFiles) -> Result<CompassApp, String> {
 /// (lossless: the table holds a handful of distinct speeds, no grades) prediction cache shared by all queries
 pub const ENERGY_TRAVERSAL_TOML: &str = r#"[traversal]
 type = "energy_model"
+grade_table_input_file = "$GRADES"
 grade_table_grade_unit = "decimal"
 time_unit = "seconds"
 distance_unit = "meters"
@@ -110,7 +114,7 @@ name = "camry"
 model_input_file = "/repo/rust/routee-compass-powertrain/src/routee/test/Toyota_Camry.bin"
 model_type = "smartcore"
 speed_unit = "miles_per_hour"
-grade_unit = "decimal"
+grade_unit = "percent"
 energy_rate_unit = "gallons_gasoline_per_mile"
 ideal_energy_rate = 0.02
 real_world_energy_adjustment = 1.25
